@@ -122,7 +122,13 @@ func (s *SimReader) Read(p []byte) (int, error) {
 	}
 	n := copy(p[:want], s.data[s.pos:s.pos+want])
 	if s.plan.Scribble {
-		for i := n; i < len(p); i++ {
+		// garbage right behind the delivered bytes (a reader may use all of p as scratch space);
+		// bounded, so that byte-wise schedules over large buffers stay cheap
+		end := len(p)
+		if end > n+96 {
+			end = n + 96
+		}
+		for i := n; i < end; i++ {
 			p[i] = byte(0xA5 ^ i)
 		}
 	}
